@@ -127,3 +127,26 @@ Theorem c19_round_guard_only_refuted :
   = [([Swap 4; NoSwap], [(7, mkMd [14; 3; 4] [13])])].
 Proof. exact round_guard_only_refuted_anti_affinity. Qed.
 Print Assumptions c19_round_guard_only_refuted.
+
+(* Several rounds one after the other, separated by the round barrier of rebalanceEnsemble (a round returns only when
+   every action it proposed has been applied; the next round loads the status again): per shard, duplicate-free stays
+   duplicate-free, the size is kept, strict anti-affinity is preserved, new members are cluster servers. *)
+Theorem c19_rounds_with_barrier : forall e nodes reqss snap snap',
+  In snap' (rounds_from e nodes snap reqss) ->
+  Forall2 (fun p q => fst p = fst q /\ fst (snd p) = fst (snd q) /\
+     (NoDup (snd (snd p)) ->
+      NoDup (snd (snd q)) /\ length (snd (snd q)) = length (snd (snd p)) /\
+      (aa_ok (e_md e) (fst (snd p)) (snd (snd p)) -> aa_ok (e_md e) (fst (snd p)) (snd (snd q))) /\
+      (forall x, In x (snd (snd q)) -> In x (snd (snd p)) \/ In x nodes))) snap snap'.
+Proof. exact rounds_ok. Qed.
+Print Assumptions c19_rounds_with_barrier.
+
+(* The barrier is needed: two proposals for one shard computed from the same snapshot (the first still queued), both
+   accepted by swapNode's membership check, break strict anti-affinity. *)
+Theorem c19_rounds_without_barrier_refuted :
+  In (Swap 4) (swap_shard Fixed (mkEnv md_zone strict_zone (Some [4; 5; 3; 2; 1]) (Some 0)) [1; 2; 3; 4; 5] [1; 2; 3] 1) /\
+  In (Swap 5) (swap_shard Fixed (mkEnv md_zone strict_zone (Some [5; 4; 3; 2; 1]) (Some 0)) [1; 2; 3; 4; 5] [1; 2; 3] 2) /\
+  apply_actions Fixed [(7, mkMd [1; 2; 3] [])] [(7, 1, 4); (7, 2, 5)] = [(7, mkMd [3; 4; 5] [1; 2])] /\
+  aa_ok md_zone strict_zone [1; 2; 3] /\ ~ aa_ok md_zone strict_zone [3; 4; 5].
+Proof. exact rounds_without_barrier_refuted. Qed.
+Print Assumptions c19_rounds_without_barrier_refuted.
